@@ -452,6 +452,28 @@ def c08(res, tier, seed, deep):
                 trades.append(" ".join([board_of(c2), p[1], p[2], p[3]] + p[4:]))
     res.tags["component_trade_variants"] = len(trades)
     fens += trades
+    # the full PRODUCT of the non-placement components on one placement: kings and rooks at home, a capturable en-passant target
+    # on each file for each side — all 16 subsets of the rights × target present / absent (32 positions with the same placement and
+    # side to move): a key table indexed by a packed (side, rights, ep) tuple with a wrong stride aliases two of these and nothing else
+    prod = []
+    for white in (True, False):
+        for f in range(8):
+            for g in (f - 1, f + 1):
+                if not 0 <= g <= 7:
+                    continue
+                cells = {4: "K", 0: "R", 7: "R", 60: "k", 56: "r", 63: "r"}
+                r5 = 4 if white else 3
+                cells[r5 * 8 + f] = "p" if white else "P"
+                cells[r5 * 8 + g] = "P" if white else "p"
+                b = board_of(cells)
+                ep = "abcdefgh"[f] + ("6" if white else "3")
+                for mask in range(16):
+                    rights = "".join(ch for i, ch in enumerate("KQkq") if mask >> i & 1) or "-"
+                    for e in (ep, "-"):
+                        prod.append(f"{b} {'w' if white else 'b'} {rights} {e} 0 1")
+                break
+    res.tags["rights_x_ep_product"] = len(prod)
+    fens += prod
     # hash (and evaluation) of successor OBJECTS built by make-move, never re-read from FEN (anything cached or updated
     # incrementally inside the position object would show here and nowhere else): every legal move of a sample
     oreqs = [f"objafter {rnd.choice([0, seed])} {f}" for f in epd + rnd.sample(base, min(len(base), 400 if tier == "thorough" else 120))]
@@ -1098,6 +1120,16 @@ def c06(res, tier, seed, deep):
     except OSError:
         up = []
     mates = [(3, 1, f) for f in (up if (tier == "thorough" or deep) else rnd.sample(up, min(len(up), 12)))] + mates
+    # mates in ONE of every kind of final position (corpus/premate_positions.txt: single check, double check — knight or pawn
+    # plus a discovered slider —, double check with a king that has no pseudo-legal move): whatever shortcut decides "this node
+    # is terminal" must recognise all of them
+    try:
+        pm1 = [l.strip() for l in open(os.path.join(VERIF, "corpus", "premate_positions.txt")) if l.strip()]
+    except OSError:
+        pm1 = []
+    pm1 = pm1 if (tier == "thorough" or deep) else rnd.sample(pm1, min(len(pm1), 30))
+    mates = [(1, 1, f) for f in pm1] + mates
+    res.tags["premate_positions"] = len(pm1)
     res.tags["underpromotion_mates"] = len(up)
     reqs, meta = [], []
     for d, keep, f in mates:
@@ -1301,6 +1333,36 @@ def c07(res, tier, seed, deep):
                      ("position fen 4k3/p6p/Pp4pP/1Pp2pP1/2Pp1P2/3P4/8/4K2R w - - 0 1", 1.0), ("go depth 4", 0), ("stop", 1.0)], False))
     sessions.append(("f2-mated-root", [("position fen 3R2k1/5ppp/8/8/8/8/8/4K3 b - - 0 1", 0), ("go depth 2", 0), ("isready", 0.3), ("stop", 0)], False))
     sessions.append(("book-and-eof", [("uci", 0), ("position startpos", 0), ("go depth 1", 0), ("position startpos moves e2e4", 0), (".state", 0), ("go", 0)], True))
+    # a `position` command whose base is accepted and whose move list is REJECTED leaves the engine on the base position (the
+    # session model says so and `.state` shows it): the `go` that follows must be answered for THAT position — book answer or
+    # search — not for the position of the last accepted command (anything remembered per accepted command is stale here)
+    def rejected_then_go(pl, r):
+        f = r.choice([None, None] + uci_proc.NONBOOK)
+        start = "rnbqkbnr/pppppppp/8/8/8/8/PPPPPPPP/RNBQKBNR w KQkq - 0 1"
+        lans, _ = uci_proc.random_walk(pl, r, f if f else start, r.randrange(1, 4))
+        base = "position " + ("fen " + f if f else "startpos")
+        bad = r.choice(["e1e9", "e2e5", "a1a1", "e1h1", "h7h8q", "zz"])
+        return [(base + " moves " + " ".join(lans), 0), (".state", 0), ("go depth 2", 0), ("stop", 0.6),
+                (base + " moves " + " ".join(lans[:-1] + [bad]), 0), (".state", 0), ("go depth 2", 0), ("stop", 0.6), ("isready", 0),
+                (base + " moves " + " ".join(lans), 0), ("position fen 8/8/8/8/8/8/8/8 w - - 0", 0), (".state", 0), ("go depth 1", 0), ("stop", 0.4)]
+    for i in range(8 if tier == "thorough" else (4 if deep else 2)):
+        sessions.append((f"rejected-moves-then-go-{i}", (lambda pl, r=random.Random(rnd.getrandbits(32)): rejected_then_go(pl, r)), False))
+    sessions.append(("rejected-moves-then-go-book", [("position startpos moves e2e4", 0), ("go", 0), ("position startpos moves e2e5", 0), (".state", 0), ("go", 0), ("isready", 0.3),
+                     ("position startpos moves e2e4 e7e5", 0), ("position startpos moves e1e9", 0), (".state", 0), ("go", 0), ("isready", 0.3)], False))
+    # FOLLOWING THE ANNOUNCED LINE: a unique, move-by-move forced mate in two that ends with castling (corpus/castle_mate2.txt,
+    # tools/gen_castlemate2.py) is searched; then the position after the key move and the forced reply is presented as the GUI
+    # would — but WITHOUT the castling right (same placement, same side to move), and once with it: the answer must be a legal
+    # move of the position presented (whatever the engine remembers of the line it announced)
+    try:
+        cm2 = [l.strip().split(" | ") for l in open(os.path.join(VERIF, "corpus", "castle_mate2.txt")) if " | " in l]
+    except OSError:
+        cm2 = []
+    for i, (P, S) in enumerate(rnd.sample(cm2, min(len(cm2), 12 if (tier == "thorough" or deep) else 3))):
+        sp = S.split(" ")
+        norights = " ".join(sp[:2] + ["-"] + sp[3:])
+        sessions.append((f"follow-the-line-{i}", [(f"position fen {P}", 0), ("go depth 4", 0), ("stop", 1.5), (f"position fen {norights}", 0), (".state", 0), ("go depth 3", 0), ("stop", 1.0),
+                         (f"position fen {P}", 0), ("go depth 4", 0), ("stop", 1.5), (f"position fen {S}", 0), ("go depth 3", 0), ("stop", 1.0)], False))
+    res.tags["follow_the_line_sessions"] = min(len(cm2), 12 if (tier == "thorough" or deep) else 3)
     # extreme material: a legal position with a legal move whose static evaluations exceed the mate scores (F10)
     sessions.append(("f10-over-material", [("position fen 6nk/6pp/8/8/8/8/QQQQQQQQ/KQQQQQQQ b - - 0 1", 0), ("go depth 2", 0), ("isready", 0.5), ("stop", 0),
                      ("position fen 7k/6pp/NNNNN3/NNNNNNNN/NNNNNNNN/NNNNNNNN/NNNNNNNN/K1NNNNNN b - - 0 1", 0), ("go depth 1", 0), ("stop", 0.5)], False))
@@ -2181,6 +2243,9 @@ def run_check(pid, tier, seed, t0):
     ok, msg, changed = wee.step_extract()
     if not ok:
         res.broken.append("tie(a) extractor: " + msg)
+    for tool, why in wee.TRANSLATOR_FAILURES.items():
+        if pid in wee.TRANSLATOR_SCOPE.get(tool, set()):
+            res.broken.append(f"tie(a) translator: TIE-BROKEN {tool}: {why}")
     # shape facts of the source (hidden-state sites, table/channel/worker-count primitives): the hand model has no
     # counterpart for a new static / thread-local / cell / lock, and fixes the semantics of these primitives
     try:
